@@ -10,9 +10,51 @@ PROPS = {
         "level_note": "Trusted: the 15-line order specification in harness/src/addrsort.rs, std::net, the loopback stack. IPv6 on the socket path is limited to ::1 and v4-mapped addresses.",
         "design_ref": "DESIGN.md 3/C16",
     },
+    "C10": {
+        "level": "exploration",
+        "engines": [{"engine": "eyeballs"}],
+        "min_counters": {"any": {"eyeballs.tie_free_cases": 10000, "eyeballs.public_trials": 10}},
+        "technique": "runtime monitoring in virtual time: real EyeballSet (hook re-export) on scripted attempts, result/finish time judged by order-independent oracles over the recorded start times plus an independent event-driven reference; loopback error-mapping trials through TcpTransport",
+        "level_text": "Full product of attempt outcomes x latencies x delay x timeout x concurrency for up to 3 (quick) / 4 (thorough) candidates plus random larger sets, every case executed by the real EyeballSet under the paused tokio clock. Winner, first failure, timeout-vs-deadline, no-progress and hang are judged against the recorded start/completion times (sound also in tie cases) and, in tie-free cases with reference-equal pacing, against the reference result and finish time.",
+        "level_note": "Trusted: tokio's paused clock (1 ms resolution), the reference simulator in harness/src/eyeballs.rs, FuturesUnordered. A TCP connect that never completes cannot be produced on loopback, so the 'never' outcome is exercised only on scripted attempts.",
+        "design_ref": "DESIGN.md 3/C10",
+    },
+    "C11": {
+        "level": "exploration",
+        "engines": [{"engine": "eyeballs"}],
+        "min_counters": {"any": {"eyeballs.tie_free_cases": 10000, "eyeballs.attempt_starts_observed": 50000}},
+        "technique": "runtime monitoring in virtual time: first-poll time of every scripted attempt recorded from the real EyeballSet and compared with reference start times (order, at-most-once, initial batch, never-early / never-late pacing, deadline)",
+        "level_text": "Same executions as C10; the oracle is over the recorded first-poll times: attempts start in order and at most once, the initial batch equals the configured concurrency, each later start coincides with the stagger tick or the releasing failure (exact in tie-free cases, one-sided bound otherwise), and the operation finishes by the deadline.",
+        "level_note": "Trusted: tokio's paused clock, the reference simulator. concurrency=Some(0) is read as 'first candidate starts at once because nothing is running'. The timeout/n stagger derivation in TcpConnecting is not observable on loopback (connects complete or fail instantly).",
+        "design_ref": "DESIGN.md 3/C11",
+    },
+    "C13": {
+        "level": "exploration",
+        "engines": [{"engine": "layers"}],
+        "min_counters": {"any": {"layers.cases_h1_conn": 100000, "layers.cases_h2_conn": 100000, "layers.rejected_connect_on_h2": 1000}},
+        "technique": "runtime differential monitor: the public SetHostHeader/Http2Checks/Http1Checks layers over a stub connection on an exhaustive request grammar vs an independent request-shape specification",
+        "level_text": "Every combination of the request grammar (8 schemes incl. mixed case, 7 host forms, 6 ports, 7 paths, 4 queries, 7 methods, 5 versions, 6 header presets, both connection protocols: 3.9 million cases, exhaustive in the thorough tier, a seeded 1/8 slice plus edge cases in the quick tier) is pushed through the real layers and the request that reaches the inner service is compared with the specification of the property.",
+        "level_note": "Trusted: the specification function in harness/src/reqsweep.rs, the http crate's Uri Display (what hyper writes on the request line).",
+        "design_ref": "DESIGN.md 3/C13",
+    },
+    "C20": {
+        "level": "exploration",
+        "engines": [{"engine": "sni"}],
+        "min_counters": {"any": {"sni.judged_must_forward": 100, "sni.judged_must_reject": 1000}},
+        "technique": "runtime differential monitor: the public ValidateSNI layer around a recording inner service on an exhaustive (version, Host, authority, server name) grammar vs an independent predicate",
+        "level_text": "All 5292 combinations of HTTP version, Host header, URI authority and TLS server name (case variants, ports, IPv4/IPv6 literals, prefix/suffix names, absent SNI, no TLS) go through the real layer; forwarded / rejected and the validated flag are compared with an independent case-insensitive, port-ignoring predicate.",
+        "level_note": "Trusted: the predicate in harness/src/reqsweep.rs. Requests that name no host are not judged.",
+        "design_ref": "DESIGN.md 3/C20",
+    },
 }
 
 ENGINES = [
     {"name": "addrsort", "path": "harness/src/addrsort.rs", "serves_properties": ["C16"],
      "kind_free_text": "exhaustive differential monitor of the address sorter (hook) + loopback connect-order observation"},
+    {"name": "eyeballs", "path": "harness/src/eyeballs.rs", "serves_properties": ["C10", "C11"],
+     "kind_free_text": "scripted attempts on the real EyeballSet under the paused tokio clock, order-independent oracles + reference simulator"},
+    {"name": "layers", "path": "harness/src/reqsweep.rs", "serves_properties": ["C13"],
+     "kind_free_text": "request grammar through the public client layers over a stub connection vs a specification"},
+    {"name": "sni", "path": "harness/src/reqsweep.rs", "serves_properties": ["C20"],
+     "kind_free_text": "ValidateSNI layer sweep vs an independent predicate"},
 ]
